@@ -662,7 +662,7 @@ def _balanced(ev):
 
 FMT_TOKENS = ['$', '{', '}', '.', ' ', '\t', 'zz', 'section', 'thesection', 'thechapter', 'thezz', 'x', 'Roman', 'roman', 'alph', 'arabic',
               'Alph', 'fnsymbol', 'bogus', 'value', '-', '0.', 'a', '${', '${zz}', '$zz', '_', '9']
-FMT_SMALL = ['$', '{', '}', '.', ' ', 'zz', 'alph', 'the']
+FMT_SMALL = ['$', '{', '}', '.', ' ', 'zz', 'alph', 'thesection']
 
 
 def format_cases(rng, quick, boost):
